@@ -32,16 +32,18 @@ enum Sel {
     Random,
     Tour(usize),
     Lex(usize),
+    /// Lexicase(3) on individuals that all tie, one of which (at the given position) has two results only
+    LexShort(usize),
 }
 
 pub fn sizes(quick: bool) -> Vec<usize> {
     let mut v: Vec<usize> = (8..=70).collect();
-    v.extend([127, 128, 129, 162, 163, 164, 255, 256, 257, 511, 512, 513, 1023, 1024, 1025]);
+    v.extend([127, 128, 129, 162, 163, 164, 255, 256, 257, 511, 512, 513, 1023, 1024, 1025, 1100, 2003, 4097]);
     if !quick {
         v.extend(71..=126);
         v.extend(130..=161);
         v.extend(165..=254);
-        v.extend([2047, 2048, 2049, 4097, 65535, 65536, 65537]);
+        v.extend([2047, 2048, 2049, 65535, 65536, 65537]);
     }
     v
 }
@@ -74,19 +76,67 @@ fn patterns(n: usize) -> Vec<(&'static str, Vec<i64>)> {
 }
 
 fn tour_sizes(n: usize) -> Vec<usize> {
-    let mut k = vec![1, 2, 3, 7, 11, 12, n / 3, n / 2, n - 2, n - 1, n, n + 1];
-    k.retain(|x| *x >= 1);
+    let mut k = vec![1, 2, 3, 7, 11, 12, 16, 17, 31, 32, 33, 64, 65, 162, 163, 164, n / 64, n / 65, n / 3, n / 2, n - 2, n - 1, n, n + 1];
+    k.retain(|x| *x >= 1 && *x <= n + 1);
     k.sort();
     k.dedup();
     k
 }
 
+/// An individual whose comparisons are recorded: the entrants of a tournament are the individuals
+/// its `max` looks at.  ("Draws k distinct individuals and returns the best of them": to know the
+/// best of k individuals of an arbitrary ordered type, each of them has to be compared at least once.)
+#[derive(Debug)]
+pub struct Probe {
+    value: i64,
+    id: usize,
+}
+thread_local! {
+    static TOUCHED: std::cell::RefCell<Vec<usize>> = const { std::cell::RefCell::new(Vec::new()) };
+}
+fn touch(a: usize, b: usize) {
+    TOUCHED.with(|t| {
+        let mut t = t.borrow_mut();
+        t.push(a);
+        t.push(b);
+    });
+}
+impl PartialEq for Probe {
+    fn eq(&self, o: &Self) -> bool {
+        touch(self.id, o.id);
+        self.value == o.value
+    }
+}
+impl Eq for Probe {}
+impl PartialOrd for Probe {
+    fn partial_cmp(&self, o: &Self) -> Option<std::cmp::Ordering> {
+        Some(self.cmp(o))
+    }
+}
+impl Ord for Probe {
+    fn cmp(&self, o: &Self) -> std::cmp::Ordering {
+        touch(self.id, o.id);
+        self.value.cmp(&o.value)
+    }
+}
+
 struct Pops {
     plain: Pop,
     matrix: Pop,
+    probes: Vec<Probe>,
 }
 fn pops(values: &[i64]) -> Pops {
-    Pops { plain: mk_pop(values), matrix: mk_pop_matrix(&lex_rows(values)) }
+    Pops { plain: mk_pop(values), matrix: mk_pop_matrix(&lex_rows(values)), probes: values.iter().enumerate().map(|(id, v)| Probe { value: *v, id }).collect() }
+}
+/// tournament on the recording individuals: (result, distinct individuals compared, was the winner among them)
+fn run_probe_tournament(k: usize, p: &Pops, env: &mut mcx::Env, alpha: Alphabet) -> (SelObs, usize, bool) {
+    TOUCHED.with(|t| t.borrow_mut().clear());
+    let o = observe_select(&Tournament::new(NonZeroUsize::new(k).unwrap()), &p.probes, &p.probes, env, alpha);
+    let mut ids = TOUCHED.with(|t| std::mem::take(&mut *t.borrow_mut()));
+    ids.sort_unstable();
+    ids.dedup();
+    let winner_in = matches!(o, SelObs::Idx(i) if ids.binary_search(&i).is_ok());
+    (o, ids.len(), winner_in)
 }
 fn run_sel(sel: Sel, p: &Pops, env: &mut mcx::Env, alpha: Alphabet) -> SelObs {
     match sel {
@@ -95,6 +145,11 @@ fn run_sel(sel: Sel, p: &Pops, env: &mut mcx::Env, alpha: Alphabet) -> SelObs {
         Sel::Random => observe_select(&Random, &p.plain, &p.plain, env, alpha),
         Sel::Tour(k) => observe_select(&Tournament::new(NonZeroUsize::new(k).unwrap()), &p.plain, &p.plain, env, alpha),
         Sel::Lex(c) => observe_select(&Lexicase::new(c), &p.matrix, &p.matrix, env, alpha),
+        Sel::LexShort(at) => {
+            let rows: Vec<Vec<i64>> = (0..p.plain.len()).map(|i| if i == at { vec![5, 5] } else { vec![5, 5, 5] }).collect();
+            let pop = mk_pop_matrix(&rows);
+            observe_select(&Lexicase::new(3), &pop, &pop, env, alpha)
+        }
     }
 }
 
@@ -114,7 +169,7 @@ fn judge(mode: BigMode, sel: Sel, values: &[i64], o: &SelObs) -> Option<(&'stati
         SelObs::Panic(p) => Some(("panic", format!("panicked: {p}"))),
         SelObs::NotMember => Some(("not-a-member", "returned a reference that is not an element of the population it was given".into())),
         SelObs::Err(k) => {
-            let fine = matches!(sel, Sel::Tour(t) if t > n) && *k == ErrKind::TournamentSize;
+            let fine = (matches!(sel, Sel::Tour(t) if t > n) && *k == ErrKind::TournamentSize) || (matches!(sel, Sel::LexShort(_)) && *k == ErrKind::MissingCase);
             if fine {
                 None
             } else {
@@ -124,6 +179,9 @@ fn judge(mode: BigMode, sel: Sel, values: &[i64], o: &SelObs) -> Option<(&'stati
         SelObs::Idx(i) => {
             if matches!(sel, Sel::Tour(t) if t > n) {
                 return Some(("too-large-accepted", format!("a tournament larger than the population of {n} returned individual {i}")));
+            }
+            if matches!(sel, Sel::LexShort(_)) {
+                return Some(("missing-result-ignored", format!("returned individual {i} although every ordering of the cases meets a result that a remaining candidate lacks: MissingTestCase is due")));
             }
             if mode == BigMode::Member {
                 return None;
@@ -162,6 +220,7 @@ fn sel_name(s: Sel) -> String {
         Sel::Random => "random".into(),
         Sel::Tour(k) => format!("tournament({k})"),
         Sel::Lex(c) => format!("lexicase({c})"),
+        Sel::LexShort(at) => format!("lexicase(3; individual {at} has two results)"),
     }
 }
 fn sel_json(s: Sel) -> Value {
@@ -171,11 +230,15 @@ fn sel_json(s: Sel) -> Value {
         Sel::Random => json!("random"),
         Sel::Tour(k) => json!({"tournament": k}),
         Sel::Lex(c) => json!({"lexicase": c}),
+        Sel::LexShort(at) => json!({"lexicase_short_at": at}),
     }
 }
 fn sel_from(v: &Value) -> Option<Sel> {
     if let Some(k) = v["tournament"].as_u64() {
         return Some(Sel::Tour(k as usize));
+    }
+    if let Some(at) = v["lexicase_short_at"].as_u64() {
+        return Some(Sel::LexShort(at as usize));
     }
     if let Some(c) = v["lexicase"].as_u64() {
         return Some(Sel::Lex(c as usize));
@@ -234,10 +297,23 @@ fn scenario(mode: BigMode, sel: Sel, pattern: &str, values: &[i64], dev: usize) 
         return (st.leaves, st.choice_points, bad);
     }
     let st = mcx::explore_bounded_h(
-        |env| run_sel(sel, &pp, env, Alphabet::Ext(4)),
-        |_, o| {
+        |env| match sel {
+            Sel::Tour(k) if mode == BigMode::Order && k >= 2 && k <= n => {
+                let (o, compared, winner_in) = run_probe_tournament(k, &pp, env, Alphabet::Ext(4));
+                (o, Some((compared, winner_in)))
+            }
+            _ => (run_sel(sel, &pp, env, Alphabet::Ext(4)), None),
+        },
+        |_, (o, probe)| {
             if let Some((k, what)) = judge(mode, sel, values, &o) {
                 note(k, what, &mut bad);
+            }
+            if let (Some((compared, winner_in)), Sel::Tour(k), SelObs::Idx(i)) = (probe, sel, &o) {
+                if compared < k {
+                    note("entrants", format!("the selection compared only {compared} distinct individuals before returning individual {i}: the best of {k} distinct entrants cannot be known from that"), &mut bad);
+                } else if !winner_in {
+                    note("entrants", format!("the returned individual {i} was never compared with another one"), &mut bad);
+                }
             }
         },
         dev,
@@ -261,6 +337,9 @@ pub fn run_family(run: &mut Run, mode: BigMode) {
                 BigMode::Member => {
                     let mut v = vec![Sel::Best, Sel::Worst, Sel::Random, Sel::Lex(2)];
                     v.extend(tour_sizes(n).into_iter().map(Sel::Tour));
+                    if pname == "ascending" {
+                        v.extend([Sel::LexShort(0), Sel::LexShort(n / 2), Sel::LexShort(n - 1)]);
+                    }
                     v
                 }
                 BigMode::Order => {
@@ -291,7 +370,7 @@ pub fn run_family(run: &mut Run, mode: BigMode) {
     }
     run.note("big.scenarios", json!(scen.len()));
     run.note("big.streams", json!(streams));
-    run.bound("big.population_sizes", json!(if quick { "8..=70, 127..=129, 162..=164, 255..=257, 511..=513, 1023..=1025" } else { "8..=257, 511..=513, 1023..=1025, 2047..=2049, 4097, 65535..=65537" }));
+    run.bound("big.population_sizes", json!(if quick { "8..=70, 127..=129, 162..=164, 255..=257, 511..=513, 1023..=1025, 1100, 2003, 4097" } else { "8..=257, 511..=513, 1023..=1025, 2047..=2049, 4097, 65535..=65537" }));
     run.bound("big.streams", json!("tournament of size 1 / random choice: all n cells of the grid (exact uniform law); otherwise every stream with at most 1 non-default word (2 up to 40 individuals, thorough) among the first 24 (12 beyond 300 individuals) over the extended grid Ext(4)"));
 }
 
